@@ -425,8 +425,28 @@ func runFSIndex(c *core.Ctx) {
 				nameCall, _ := an.CallOf(src)
 				okSrc := false
 				var tmp *ssa.Call
+				// the temporary file may come out of a helper of the store: then all its non-error returns return the file
+				// created there, and the helper's error is checked before the rename
+				var viaHelper []an.HelperRet
 				if nameCall != nil && an.IsMethod(nameCall, "os", "File", "Name") {
-					if ct, i := an.CallOf(an.Origin(nameCall.Call.Args[0])); ct != nil && i == 0 && an.IsFunc(ct, "os", "CreateTemp") {
+					fileV := an.Origin(nameCall.Call.Args[0])
+					if hr := an.HelperReturns(fileV, func(h *ssa.Function) bool { return core.FuncPkgPath(h) == r.StorePath }); len(hr) > 0 {
+						viaHelper = hr
+						var inner *ssa.Call
+						same := true
+						for _, x := range hr {
+							ct, i := an.CallOf(an.Origin(x.Val))
+							if ct == nil || i != 0 || !an.IsFunc(ct, "os", "CreateTemp") || (inner != nil && inner != ct) {
+								same = false
+								break
+							}
+							inner = ct
+						}
+						if same && inner != nil {
+							fileV = an.Origin(hr[0].Val)
+						}
+					}
+					if ct, i := an.CallOf(fileV); ct != nil && i == 0 && an.IsFunc(ct, "os", "CreateTemp") {
 						tmp = ct
 						_, dirPath := accessPath(an.Origin(ct.Call.Args[0]))
 						parts := pathParts(p)
@@ -442,9 +462,53 @@ func runFSIndex(c *core.Ctx) {
 					c.Fail(key, s.call.Pos(), "the index file is renamed from something other than a temporary file created in its own directory: the replacement is not atomic")
 					continue
 				}
-				// the encoder's ok-edge dominates the rename
+				// the encoder's ok-edge dominates the rename (or, inside the helper, every non-error return; and the rename is on
+				// the nil edge of the helper's error)
 				okEnc := false
+				guardSets := [][]an.Edge{an.GuardingEdges(s.call.Block())}
+				if len(viaHelper) > 0 {
+					guardSets = nil
+					helperChecked := false
+					for _, g := range an.GuardingEdges(s.call.Block()) {
+						if x, nilSucc, ok := an.NilTest(g.If()); ok && g.Succ == nilSucc {
+							if hc, _ := an.CallOf(x); hc != nil && hc == viaHelper[0].Call {
+								helperChecked = true
+							}
+						}
+					}
+					if helperChecked {
+						for _, x := range viaHelper {
+							guardSets = append(guardSets, an.GuardingEdges(x.Ret.Block()))
+						}
+					}
+				}
+				allSets := len(guardSets) > 0
+				for _, gs := range guardSets {
+					found := false
+					for _, g := range gs {
+						x, nilSucc, ok := an.NilTest(g.If())
+						if !ok || g.Succ != nilSucc {
+							continue
+						}
+						if ec, _ := an.CallOf(x); ec != nil && an.IsMethod(ec, "encoding/json", "Encoder", "Encode") {
+							if ne, _ := an.CallOf(an.Origin(ec.Call.Args[0])); ne != nil && an.IsFunc(ne, "encoding/json", "NewEncoder") {
+								if fc, i := an.CallOf(an.Origin(ne.Call.Args[0])); fc == tmp && i == 0 {
+									found = true
+								}
+							}
+						}
+					}
+					if !found {
+						allSets = false
+					}
+				}
+				if allSets {
+					okEnc = true
+				}
 				for _, g := range an.GuardingEdges(s.call.Block()) {
+					if len(viaHelper) > 0 {
+						break
+					}
 					x, nilSucc, ok := an.NilTest(g.If())
 					if !ok || g.Succ != nilSucc {
 						continue
@@ -477,8 +541,47 @@ func isCleanupFunc(c *core.Ctx, fn *ssa.Function) bool {
 		if f.Name() == "gc" && f.Signature.Recv() != nil {
 			return true
 		}
+		if hasCleanupLoop(f) {
+			return true
+		}
 	}
 	return false
+}
+
+// hasCleanupLoop: the function removes, in a loop, the elements of a literal list of at least three paths.
+func hasCleanupLoop(fn *ssa.Function) bool {
+	found := false
+	an.Calls(fn, func(call ssa.CallInstruction) {
+		cc, ok := call.(*ssa.Call)
+		if !ok || !an.IsFunc(call, "os", "Remove") || !inLoop(call.Block()) {
+			return
+		}
+		if u, ok := cc.Call.Args[0].(*ssa.UnOp); ok && u.Op == token.MUL {
+			if ia, ok := u.X.(*ssa.IndexAddr); ok {
+				// the list: a slice of a literal array, possibly held in a local variable
+				x := ia.X
+				if ld, ok := x.(*ssa.UnOp); ok && ld.Op == token.MUL {
+					if o := an.Origin(ld); o != ssa.Value(ld) {
+						x = o
+					}
+				}
+				if sl, ok := x.(*ssa.Slice); ok {
+					if al, ok := sl.X.(*ssa.Alloc); ok && al.Referrers() != nil {
+						n := 0
+						for _, ref := range *al.Referrers() {
+							if _, ok := ref.(*ssa.IndexAddr); ok {
+								n++
+							}
+						}
+						if n >= 3 {
+							found = true
+						}
+					}
+				}
+			}
+		}
+	})
+	return found
 }
 
 func runFSBlob(c *core.Ctx) {
@@ -784,7 +887,13 @@ func runFSCleanup(c *core.Ctx) {
 				}
 				if u, ok := cc.Call.Args[0].(*ssa.UnOp); ok && u.Op == token.MUL {
 					if ia, ok := u.X.(*ssa.IndexAddr); ok {
-						if sl, ok := ia.X.(*ssa.Slice); ok {
+						lx := ia.X
+						if ld, ok := lx.(*ssa.UnOp); ok && ld.Op == token.MUL {
+							if o := an.Origin(ld); o != ssa.Value(ld) {
+								lx = o
+							}
+						}
+						if sl, ok := lx.(*ssa.Slice); ok {
 							if al, ok := sl.X.(*ssa.Alloc); ok {
 								// elements in index order
 								type el struct {
@@ -953,6 +1062,12 @@ func runFSCleanup(c *core.Ctx) {
 			// flag cleared on the nil edge of the cleanup's result, in the caller (parent function)
 			flagOK := false
 			par := fn.Parent()
+			if par == nil {
+				// the cleanup is a method or function of its own: its (single) static caller plays the parent's part
+				if sites := c.P.Callers(fn); len(sites) == 1 && sites[0].Common().StaticCallee() == fn {
+					par = sites[0].Parent()
+				}
+			}
 			if par != nil {
 				an.Instrs(par, func(in ssa.Instruction) {
 					st, ok := in.(*ssa.Store)
@@ -973,6 +1088,9 @@ func runFSCleanup(c *core.Ctx) {
 						}
 						if call, _ := an.CallOf(x); call != nil {
 							if mc, ok := call.Call.Value.(*ssa.MakeClosure); ok && mc.Fn == fn {
+								flagOK = true
+							}
+							if call.Call.StaticCallee() == fn {
 								flagOK = true
 							}
 						}
